@@ -423,6 +423,14 @@ def newObj (c : Cfg) (tbl : Tbl) (kind ctor : String) (a : List String) : Option
   | some (none, e) => if e.descr == "err" then errRes e else panicRes e
   | none =>
   match kind, ctor, a with
+  | _, "deser", [src] => (match (num? src).bind (tbl.get? ·) with
+    | some o => if kindOf o != kind then none else (match reDeser o with
+      | some o' => okObj o' (.eq "ok")
+      | none => errRes (.eq "ok"))
+    | none => none)
+  | _, "clone", [src] => (match (num? src).bind (tbl.get? ·) with
+    | some o => okObj o (.eq "ok")
+    | none => none)
   | "r9", "from_bv", [src, h1, h0] => match (num? src).bind (tbl.get? ·), flag? h1, flag? h0 with
     | some (.bv m s), some h1, some h0 => match R9.build c m h1 h0 with
       | .ok x => okObj (.r9 x s) (.eq "ok")
@@ -529,14 +537,6 @@ def newObj (c : Cfg) (tbl : Tbl) (kind ctor : String) (a : List String) : Option
       | .ok none => errRes exp
       | .error _ => panicRes exp)
     | _, _ => none
-  | _, "deser", [src] => match (num? src).bind (tbl.get? ·) with
-    | some o => if kindOf o != kind then none else match reDeser o with
-      | some o' => okObj o' (.eq "ok")
-      | none => errRes (.eq "ok")
-    | none => none
-  | _, "clone", [src] => match (num? src).bind (tbl.get? ·) with
-    | some o => okObj o (.eq "ok")
-    | none => none
   | _, _, _ => none
 
 /-! ### queries -/
